@@ -465,7 +465,7 @@ impl<'p> Gen<'p> {
             5 => {
                 let no = self.r.below(3);
                 let owners = (0..no).map(|_| self.kid()).collect();
-                CertSpec::PoolReg { operator: self.kid(), owners, reward: Cred::Key(self.kid()), pledge: self.amount(), cost: 340_000_000, relays: self.r.below(4) as u8, meta: self.r.chance(1, 2) }
+                CertSpec::PoolReg { operator: self.kid(), owners, reward: Cred::Key(self.kid()), pledge: self.amount(), cost: 340_000_000 + self.r.below(64), relays: self.r.below(8) as u8, meta: self.r.chance(1, 2) }
             }
             6 => CertSpec::PoolRetire(self.kid(), self.r.below(500) as u32),
             7 => CertSpec::CommitteeHotAuth(c.clone(), self.any_cred(200, false)),
